@@ -24,6 +24,12 @@ CLAIMS = {
  "C15": dict(cat="proof", tech="machine-checked proof in Coq (verified lockstep equivalence checker on the decoded bytecode, decoder facts) + model/implementation correspondence",
    text="Kernel-checked: if Equiv.check_equiv accepts (register tape, tape decoded from the words by a decoder written from the format documentation only) then both compute the same outputs for every value type, semantics, input and initial register/memory contents; any stream the decoder accepts carries the documented marker words with two words per op; the bounds check implies every register index < reg_count and != 255 and every memory index < mem_count. The checks run on every word stream Bytecode::new emits; Bytecode::new incl. repack_map is also modelled and compared word-for-word; a Rust documentation-only interpreter is compared with the VM on the same inputs.",
    ref="DESIGN.md §5 C15"),
+ "C11": dict(cat="proof", tech="machine-checked proof in Coq (allocator totality and slot bounds, argument-check model) + correspondence of interval value-or-panic + totality oracle in child processes",
+   text="Kernel-checked: allocation never fails for budgets 3..255 and every slot index of a compiled tape is below slot_count (so the interpreter's slot accesses are in bounds), argument checks return error values exactly when too few variables / mismatched slice lengths are supplied. Interval::new's assertion is an explicit error value of the interval model, and the interpreter's interval result (value or panic) equals the model's on overflow-prone programs; every evaluator kind of both backends is run under catch_unwind in child processes on finite inputs up to f32::MAX, plus a malformed-argument stream.",
+   ref="DESIGN.md §5 C11", note="Known finding: JIT half-NaN intervals (KNOWN_FINDINGS.txt)."),
+ "C03": dict(cat="proof", tech="machine-checked proof in Coq (compositional soundness theorem; per-opcode enclosure lemmas over extended reals in progress) + bit-exact correspondence of the interval model + enclosure oracle on interpreter and JIT",
+   text="Kernel-checked: any relation preserved by every opcode under a guard on the point values is preserved by every tape (all value types/semantics) — the 'soundness through composition' that the suite never tests. types/interval.rs is modelled once over an abstract float structure; its f32 instance equals the interpreter's interval results bit-for-bit (up to the sign of zero bounds) on DAGs with every node exported, including through Transformable; the enclosure oracle runs on interpreter and JIT per node and per sample point with local obligations.",
+   ref="DESIGN.md §5 C03", note="Known findings: NaN operand hidden behind a non-NaN interval (D9), hash opcodes on signed zero. Libm monotonicity is assumed, not proved."),
 }
 
 def main():
